@@ -7,9 +7,16 @@ import (
 )
 
 func evalEmbeddedStr(node *ast.EmbeddedStr, env *object.Env) object.PanObject {
-	// cache strs because embeddedstr ast is reverse order of source code
-	evaluatedStrs := []string{node.Latter}
+	// NOTE: embeddedstr ast is reverse order of source code,
+	// but pieces must be evaluated in the order written
+	pieces := []*ast.FormerStrPiece{}
 	for n := node.Former; n != nil; n = n.Former {
+		pieces = append([]*ast.FormerStrPiece{n}, pieces...)
+	}
+
+	var out bytes.Buffer
+
+	for _, n := range pieces {
 		evaluated := Eval(n.Expr, env)
 		if err, ok := evaluated.(*object.PanErr); ok {
 			return appendStackTrace(err, node.Source())
@@ -26,16 +33,11 @@ func evalEmbeddedStr(node *ast.EmbeddedStr, env *object.Env) object.PanObject {
 			return appendStackTrace(err, node.Source())
 		}
 
-		// prepend
-		evaluatedStrs = append(
-			[]string{n.Str, evaluatedStr.Value}, evaluatedStrs...)
+		out.WriteString(n.Str)
+		out.WriteString(evaluatedStr.Value)
 	}
 
-	var out bytes.Buffer
-
-	for _, str := range evaluatedStrs {
-		out.WriteString(str)
-	}
+	out.WriteString(node.Latter)
 
 	return object.NewPanStr(out.String())
 }
